@@ -525,8 +525,31 @@ def composition(S, n1, n2, d):
             parts[nm] = as_sym_arr(SH.get(dense(kk(x1, x2))))
         os1 = as_sym_arr(SH.get(sk1.outputscale)).reshape(-1)[0]
         os2 = as_sym_arr(SH.get(sk2.outputscale)).reshape(-1)[0]
+        # operator precedence / flattening: every way of nesting a sum or a product as the left or right operand
+        nested = {
+            "k1 * (k2 + k3)": dense((k1 * (k2 + k3))(x1, x2)),
+            "(k2 + k3) * k1": dense(((k2 + k3) * k1)(x1, x2)),
+            "k1 + (k2 * k3)": dense((k1 + (k2 * k3))(x1, x2)),
+            "(k2 * k3) + k1": dense(((k2 * k3) + k1)(x1, x2)),
+            "k1 * (k2 * k3)": dense((k1 * (k2 * k3))(x1, x2)),
+            "k1 + (k2 + k3)": dense((k1 + (k2 + k3))(x1, x2)),
+            "(k1 + k2) * (k2 + k3)": dense(((k1 + k2) * (k2 + k3))(x1, x2)),
+            "(k1 * k2) + (k2 * k3)": dense(((k1 * k2) + (k2 * k3))(x1, x2)),
+            "scale(k1 * (k2 + k3))": dense(K.ScaleKernel(k1 * (k2 + k3))(x1, x2)),
+        }
+        nested_diag = (k1 * (k2 + k3))(x1, x1, diag=True)
+        rbf_d = as_sym_arr(SH.get(k1(x1, x1, diag=True)))
+        lin_d = as_sym_arr(SH.get(k2(x1, x1, diag=True)))
+        per_d = as_sym_arr(SH.get(k3(x1, x1, diag=True)))
     R = parts["rbf"] * os1 * parts["periodic"] + parts["linear"] * os2 + parts["rbf"] * parts["linear"]
     S.prove_eq(out, R, "composition")
+    a, b, c = parts["rbf"], parts["linear"], parts["periodic"]
+    refs = {"k1 * (k2 + k3)": a * (b + c), "(k2 + k3) * k1": (b + c) * a, "k1 + (k2 * k3)": a + b * c, "(k2 * k3) + k1": b * c + a,
+            "k1 * (k2 * k3)": a * b * c, "k1 + (k2 + k3)": a + b + c, "(k1 + k2) * (k2 + k3)": (a + b) * (b + c),
+            "(k1 * k2) + (k2 * k3)": a * b + b * c, "scale(k1 * (k2 + k3))": a * (b + c) * Sym.const(math.log(2.0))}
+    for nm, val in nested.items():
+        S.prove_eq(val, refs[nm], "nested composition %s" % nm)
+    S.prove_eq(nested_diag, rbf_d * (lin_d + per_d), "nested composition k1 * (k2 + k3), diag=True")
 
 
 def grad_kernel(S, which, n1, n2, d, ard=False, power=2):
